@@ -141,4 +141,13 @@ theorem removed_absent_any (s : TdfSt) (t : Nat) (now : Int) (ht : t ≠ 0) (hn 
     simp only [h0, Bool.or_false]
     simpa [Function.comp_def, List.any_append] using h1
 
+/-- … and after an accepted `add_block` an entry of the block's type is there (`has_x` true), on ANY table -/
+theorem added_present_any (s : TdfSt) (b : BlkArg) (c : Str) (now : Int) (pos : Nat) (pl : Bytes)
+    (hd : hasType b.typ s.entries = false) (hf : firstUnused s.entries = some pos) (hchk : checkArg b c now = .ok pl)
+    (hh : (s.entries.drop (pos + 1)).any (fun e => e.typ != 0) = false) :
+    hasType b.typ (addBlock s b c now).1.entries = true := by
+  rw [addBlock_entries s b c now pos pl hd hf hchk hh]
+  unfold hasType
+  simp
+
 end Tdf.C11
